@@ -441,7 +441,7 @@ class Dataset:
         """
         return Dataset(self.unified_rankings())
 
-    def sub_problem_from_elements(self, elements_to_keep: Set[Element]) -> 'Dataset':
+    def sub_problem_from_elements(self, elements_to_keep: Set[Element], keep_all_rankings: bool = False) -> 'Dataset':
         """
         Generates a sub-problem Dataset by projecting the original Dataset on a given set of elements.
 
@@ -451,6 +451,11 @@ class Dataset:
 
         :param elements_to_keep: A set of elements which the sub-problem should be based on.
         :type elements_to_keep: Set[Element]
+        :param keep_all_rankings: If True, the rankings that contain none of the elements to keep are not removed: they
+                                  are kept as empty rankings. This is needed when a consensus of the sub-problem is
+                                  computed to be a part of a consensus of the initial problem: a ranking where two kept
+                                  elements are both non-ranked still has a cost for this pair of elements. Default False
+        :type keep_all_rankings: bool
 
         :return: A Dataset representing the sub-problem, which only includes the elements from 'elements_to_keep' set.
         :rtype: Dataset
@@ -463,11 +468,11 @@ class Dataset:
                 if bucket.intersection(elements_to_keep)
             ])
             for ranking in self.rankings
-            if any(bucket.intersection(elements_to_keep) for bucket in ranking)
+            if keep_all_rankings or any(bucket.intersection(elements_to_keep) for bucket in ranking)
         ]
         return Dataset(projected_rankings)
 
-    def sub_problem_from_ids(self, id_elements_to_keep: Set[int]) -> 'Dataset':
+    def sub_problem_from_ids(self, id_elements_to_keep: Set[int], keep_all_rankings: bool = False) -> 'Dataset':
         """
         Generates a sub-problem Dataset by projecting the original Dataset on a given set of int IDs of elements.
 
@@ -477,12 +482,16 @@ class Dataset:
 
         :param id_elements_to_keep: A set of elements which the sub-problem should be based on.
         :type id_elements_to_keep: Set[int]
+        :param keep_all_rankings: If True, the rankings that contain none of the elements to keep are kept as empty
+                                  rankings (see sub_problem_from_elements). Default False
+        :type keep_all_rankings: bool
 
         :return: A Dataset representing the sub-problem which only includes the elements from 'id_elements_to_keep' set.
         :rtype: Dataset
         """
 
-        return self.sub_problem_from_elements(set(self._mapping_id_element[id_elem] for id_elem in id_elements_to_keep))
+        return self.sub_problem_from_elements(set(self._mapping_id_element[id_elem] for id_elem in id_elements_to_keep),
+                                              keep_all_rankings)
 
     def write(self, path) -> None:
         """
